@@ -702,7 +702,12 @@ def extract_splits():
             other = re.findall(r'self\.set_\w+\([^)]*\)', body)
             known = sum(reset) + sum(alive)
             if len(other) != known: problems.append(f'{rel}::{m.group(1)}: unrecognised setter call among {other}')
-            out.append((f'{rel}::{m.group(1)}', m.group(2) == '&mut self', reset, alive, iters))
+            # the enclosing impl header: is the receiver type restricted to heap storage (a buffer that can only be split once, by value)?
+            hdrs = [h for h in re.finditer(r'\bimpl\b[^{;]*\{', txt[:m.start()])]
+            hdr = hdrs[-1].group(0) if hdrs else ''
+            self_ty = hdr.split(' for ')[-1] if ' for ' in hdr else hdr
+            heap_only = 'HeapStorage' in self_ty
+            out.append((f'{rel}::{m.group(1)}', m.group(2) == '&mut self', reset, alive, iters, heap_only))
     if len(out) < 4: problems.append(f'only {len(out)} split functions found')
     return out, problems
 
@@ -711,7 +716,7 @@ def write_splits(splits, problems):
     lines = ['(* GENERATED by tools/extract_facts.py from /repo/src on every run - do not edit *)',
              'From Coq Require Import List String.', 'Import ListNotations.', 'Require Import MRB.Model.Types MRB.Model.Splits.', 'Open Scope string_scope.', '',
              'Definition splits : list split_fn := [']
-    lines.append(';\n'.join(f'  mkSplit "{n}" {b(br)} ({t(r)}) ({t(a)}) ({t(i)})' for n, br, r, a, i in splits))
+    lines.append(';\n'.join(f'  mkSplit "{n}" {b(br)} ({t(r)}) ({t(a)}) ({t(i)}) {b(ho)}' for n, br, r, a, i, ho in splits))
     lines.append('].')
     lines.append(f'Definition extractor_clean : bool := {b(not problems)}.')
     for p in problems: lines.append(f'(* PROBLEM: {p} *)')
@@ -741,6 +746,10 @@ def main():
     loops, wakers = extract_structure()
     write_structure(loops, wakers)
     print(f'extract_facts: {len(loops)} loops, {len(wakers)} wake calls')
+    import data_translate
+    dp = data_translate.main(REPO, OUT)
+    for x in dp: print('extract_facts: PROBLEM:', x)
+    print(f'extract_facts: data-level functions translated ({len(data_translate.FUNS)} functions, {len(dp)} problems)')
 
 if __name__ == '__main__':
     main()
